@@ -4,6 +4,7 @@ import (
 	"bufio"
 	"bytes"
 	"fmt"
+	"io"
 	"os"
 	"os/exec"
 	"path/filepath"
@@ -127,6 +128,71 @@ func (w *yieldWriter) Write(p []byte) (int, error) {
 	return w.buf.Write(p)
 }
 
+
+// coRun runs the bodies as goroutines under a cooperative scheduler: exactly one runs at a time, each
+// is descheduled at every Write call on its destination, and the explorer decides who runs next
+// (switching away from a runnable goroutine is a deviation = preemption).  It returns each body's
+// result and the bytes its destination received; *schedule records which goroutine ran in each step.
+func coRun(c *explore.Ctx, bodies []func(io.Writer) string, schedule *[]int) ([]string, [][]byte) {
+	s := &coSched{c: c, events: make(chan coEvent), running: -1}
+	writers := make([]*yieldWriter, len(bodies))
+	results := make([]string, len(bodies))
+	for g := range bodies {
+		s.resume = append(s.resume, make(chan struct{}))
+		writers[g] = &yieldWriter{s: s, g: g}
+	}
+	for g, o := range bodies {
+		go func(g int, o func(io.Writer) string) {
+			<-s.resume[g]
+			results[g] = o(writers[g])
+			s.events <- coEvent{g: g, done: true}
+		}(g, o)
+	}
+	alive := make([]bool, len(bodies))
+	for g := range alive {
+		alive[g] = true
+	}
+	cur := 0
+	for {
+		// enabled goroutines in canonical order: the running one first
+		var enabled []int
+		if alive[cur] {
+			enabled = append(enabled, cur)
+		}
+		for g := range alive {
+			if alive[g] && g != cur {
+				enabled = append(enabled, g)
+			}
+		}
+		if len(enabled) == 0 {
+			break
+		}
+		next := enabled[0]
+		if len(enabled) > 1 {
+			if alive[cur] {
+				next = enabled[c.Deviate(len(enabled), "run")] // switching away from a runnable goroutine is a preemption
+			} else {
+				next = enabled[c.Choose(len(enabled), "run (current finished)")]
+			}
+		}
+		cur = next
+		*schedule = append(*schedule, cur)
+		s.resume[cur] <- struct{}{}
+		ev := <-s.events
+		if ev.g != cur {
+			explore.Fatal("coRun: goroutine %d ran while %d was scheduled", ev.g, cur)
+		}
+		if ev.done {
+			alive[cur] = false
+		}
+	}
+	outputs := make([][]byte, len(bodies))
+	for g := range writers {
+		outputs[g] = writers[g].buf.Bytes()
+	}
+	return results, outputs
+}
+
 func c16Interleavings(r *run.Run) {
 	bound := 2
 	r.Explore(explore.Config{Name: "C16.interleavings", Bound: bound, Workers: 1, Deadline: r.PartDeadline(0.5)},
@@ -151,67 +217,21 @@ func c16Interleavings(r *run.Run) {
 				res := o.Run(c16ops.Font(k), &buf)
 				want = append(want, res+" "+fmt.Sprintf("%x", buf.Bytes()))
 			}
-			s := &coSched{c: c, events: make(chan coEvent), running: -1}
-			writers := make([]*yieldWriter, len(sel))
-			results := make([]string, len(sel))
-			for g := range sel {
-				s.resume = append(s.resume, make(chan struct{}))
-				writers[g] = &yieldWriter{s: s, g: g}
-			}
-			for g, o := range sel {
-				go func(g int, o c16ops.WriterOp) {
-					<-s.resume[g]
-					results[g] = o.Run(font, writers[g])
-					s.events <- coEvent{g: g, done: true}
-				}(g, o)
-			}
-			alive := make([]bool, len(sel))
-			for g := range alive {
-				alive[g] = true
-			}
 			var schedule []int
 			c.Sample(func() any {
 				return map[string]any{"font": kind, "ops": []string{sel[0].Name, sel[1].Name}, "schedule": schedule}
 			})
-			cur := 0
-			for {
-				// enabled goroutines in canonical order: the running one first
-				var enabled []int
-				if alive[cur] {
-					enabled = append(enabled, cur)
-				}
-				for g := range alive {
-					if alive[g] && g != cur {
-						enabled = append(enabled, g)
-					}
-				}
-				if len(enabled) == 0 {
-					break
-				}
-				next := enabled[0]
-				if len(enabled) > 1 {
-					if alive[cur] {
-						next = enabled[c.Deviate(len(enabled), "run")] // switching away from a runnable goroutine is a preemption
-					} else {
-						next = enabled[c.Choose(len(enabled), "run (current finished)")]
-					}
-				}
-				cur = next
-				schedule = append(schedule, cur)
-				s.resume[cur] <- struct{}{}
-				ev := <-s.events
-				if ev.g != cur {
-					explore.Fatal("C16.interleavings: goroutine %d ran while %d was scheduled", ev.g, cur)
-				}
-				if ev.done {
-					alive[cur] = false
-				}
+			var bodies []func(io.Writer) string
+			for _, o := range sel {
+				o := o
+				bodies = append(bodies, func(w io.Writer) string { return o.Run(font, w) })
 			}
+			results, outputs := coRun(c, bodies, &schedule)
 			if len(schedule) > 2 {
 				c.Nontrivial()
 			}
 			for g, o := range sel {
-				got := results[g] + " " + fmt.Sprintf("%x", writers[g].buf.Bytes())
+				got := results[g] + " " + fmt.Sprintf("%x", outputs[g])
 				if got != want[g] {
 					c.FailObserved("C16.interleaving", kind+" "+sel[0].Name+" || "+sel[1].Name, "goroutine %d (%s) produced different output than when run alone, schedule %v (each number = which goroutine ran until its next Write call)", g, o.Name, schedule)
 				}
